@@ -90,6 +90,18 @@ func NewDiskQueue(name string, dataPath string, maxBytesPerFile int64, syncEvery
 		log.Printf("ERROR: diskqueue(%s) failed to retrieveMetaData - %s", d.name, err.Error())
 	}
 
+	// if we did not shut down cleanly, the current write file can extend beyond writePos.
+	// those bytes are not part of the queue (they were never synced): cut them off, otherwise the
+	// reader buffers them and returns them instead of the messages that get written there next.
+	fn := d.fileName(d.writeFileNum)
+	if fi, err := os.Stat(fn); err == nil && fi.Size() > d.writePos {
+		log.Printf("DISKQUEUE(%s): %s is larger than writePos %d, truncating", d.name, fn, d.writePos)
+		err = os.Truncate(fn, d.writePos)
+		if err != nil {
+			log.Printf("ERROR: diskqueue(%s) failed to truncate %s - %s", d.name, fn, err.Error())
+		}
+	}
+
 	go d.ioLoop()
 
 	return &d
